@@ -16,11 +16,12 @@ import (
 // and the selection of crash / failure points.
 type C08Case struct {
 	Pre     Program `json:"pre"`
-	Dirty   bool    `json:"dirty"`          // pre-state captured while the replica is open
-	Op      Op      `json:"op"`             // operation under test (selectors resolved against the pre-state model)
-	Preload bool    `json:"preload"`        // victim opens with preload
-	Sample  []int   `json:"sample"`         // indexes (mod #calls) of the boundaries/calls to exercise; empty = all
-	Then    string  `json:"then,omitempty"` // follow-up after the operation in the failed-call runs: "" | close | touchmeta | touchclose
+	Dirty   bool    `json:"dirty"`           // pre-state captured while the replica is open
+	Op      Op      `json:"op"`              // operation under test (selectors resolved against the pre-state model)
+	Preload bool    `json:"preload"`         // victim opens with preload
+	Punch   bool    `json:"punch,omitempty"` // victim and the reopening inspector run with space reclamation on
+	Sample  []int   `json:"sample"`          // indexes (mod #calls) of the boundaries/calls to exercise; empty = all
+	Then    string  `json:"then,omitempty"`  // follow-up after the operation in the failed-call runs: "" | close | touchmeta | touchclose
 	All     bool    `json:"all"`
 }
 
@@ -75,11 +76,24 @@ type dirState struct {
 // inspectDir reopens a (copy of a) replica directory the way a restarted
 // replica does and reads everything the oracle needs.
 func inspectDir(dir string, preload bool, fast bool) dirState {
+	return inspectDirPunch(dir, preload, fast, false)
+}
+
+// inspectDirPunch: with punch the directory is reopened with space reclamation
+// on, as a restarted replica does: the preload punches every block of a snapshot
+// file that a newer file overwrites, and what is read afterwards is read after
+// those punches were carried out.
+func inspectDirPunch(dir string, preload bool, fast bool, punch bool) dirState {
 	var st dirState
 	st.Snaps = map[string][]byte{}
 	st.SnapErr = map[string]error{}
 	s := replica.NewServer("127.0.0.1:9502", dir, 512, "")
 	s.SetPreload(preload)
+	if punch {
+		startHoleCreator()
+		types.ShouldPunchHoles = true
+		defer func() { types.ShouldPunchHoles = false }()
+	}
 	if err := s.Open(); err != nil {
 		st.OpenErr = err
 		return st
@@ -87,6 +101,13 @@ func inspectDir(dir string, preload bool, fast bool) dirState {
 	r := s.Replica()
 	if fast {
 		r.VerifSetHoleDrainer(replica.VerifFastHoleDrainer)
+	}
+	if punch {
+		if err := holeBarrierAt(dir + ".barrier"); err != nil {
+			s.Close()
+			st.OpenErr = fmt.Errorf("harness: %v", err)
+			return st
+		}
 	}
 	defer s.Close()
 	ch, err := r.Chain()
@@ -315,7 +336,7 @@ func runC08Case(cc C08Case) (*Fail, c08Stats, error) {
 	preM := e.M.Clone()
 	opIdx := len(pre.Ops)
 	// resolve the operation to a concrete victim op and run it in-process to obtain the post-state model
-	vop := VictimOp{K: cc.Op.K, Preload: cc.Preload, Mode: "RW"}
+	vop := VictimOp{K: cc.Op.K, Preload: cc.Preload, Mode: "RW", Punch: cc.Punch}
 	expectRefused := false
 	switch cc.Op.K {
 	case "write":
@@ -454,7 +475,7 @@ func runC08Case(cc C08Case) (*Fail, c08Stats, error) {
 	if expectRefused {
 		want = preM
 	}
-	if d := inspectDir(work, true, true).matches(want, want.Counter, want.Counter); d != "" {
+	if d := inspectDirPunch(work, true, true, cc.Punch).matches(want, want.Counter, want.Counter); d != "" {
 		return fail(sig0+"|no-fault|state-after-normal-exit", fmt.Sprintf("after %+v (%s) the directory: %s", vop, rec.Result, d), "C08", "C12"), stt, nil
 	}
 	var calls []SysCall
@@ -573,7 +594,7 @@ func runC08Case(cc C08Case) (*Fail, c08Stats, error) {
 								en, i+1, len(calls), c.Name, tailStr(c.Args, 120), vop.Name, vr.Result, fvop.Next, vr.Then, len(live), d), "C08", "C11"), stt, nil
 					}
 				}
-				ds := inspectDir(work, true, true)
+				ds := inspectDirPunch(work, true, true, cc.Punch)
 				if d := ds.matchesAfterRemovals(preM, cLo, cHi, vop.Name, fvop.Next); d != "" {
 					return fail(sig0+"|"+c.Role+"|"+en+"|failed-removal-then-next-removal|state-damaged",
 						fmt.Sprintf("%s on call %d/%d %s(%s) of the removal of %s (reported %q), then the removal of its child %s on the same replica (%s), then close; the directory: %s",
@@ -588,7 +609,7 @@ func runC08Case(cc C08Case) (*Fail, c08Stats, error) {
 				}
 				continue
 			}
-			ds := inspectDir(work, true, true)
+			ds := inspectDirPunch(work, true, true, cc.Punch)
 			if vr.Result == "ok" {
 				w := postM
 				if expectRefused {
@@ -622,7 +643,7 @@ func runC08Case(cc C08Case) (*Fail, c08Stats, error) {
 							return nil, stt, err
 						}
 						if vr2, err := runVictim(work, vop, pre.MaxChain, inj); err == nil && !vr2.Died && vr2.Result != "ok" &&
-							cmpState(inspectDir(work, true, true), preM, preM.Counter, preM.Counter, preFlags) == "" {
+							cmpState(inspectDirPunch(work, true, true, cc.Punch), preM, preM.Counter, preM.Counter, preFlags) == "" {
 							kind = "failed-operation-then-" + fvop.Then + "|state-damaged"
 							sg = sig0 + "|" + c.Role + "|" + en + "|" + kind
 							d = fmt.Sprintf("the failed operation alone leaves the old state intact, but after the follow-up %q (result %q) on the same replica: %s", fvop.Then, vr.Then, d)
@@ -644,13 +665,14 @@ func runC08Case(cc C08Case) (*Fail, c08Stats, error) {
 // checkCrashState: after a process death the directory reopens and shows the
 // state before or after the interrupted operation.
 func checkCrashState(work, base string, preload bool, kind string, vop VictimOp, preM, postM *Model, refused bool, cLo, cHi int64) string {
+	punch := vop.Punch
 	probe := filepath.Join(base, "probe")
 	os.RemoveAll(probe)
 	if err := CopyDirExact(work, probe); err != nil {
 		return "harness: " + err.Error()
 	}
 	defer os.RemoveAll(probe)
-	ds := inspectDir(probe, preload, true)
+	ds := inspectDirPunch(probe, preload, true, punch)
 	if kind == "write" {
 		return ds.matchesWrite(preM, postM, vop.Off, vop.Len)
 	}
@@ -728,6 +750,9 @@ func c08Run(t *testing.T, prop, test string, all bool, gen func(*rapid.T) C08Cas
 		}
 		if cc.Then != "" && stt.faultPoints > 0 {
 			labels = append(labels, "failed-call-then-"+cc.Then)
+		}
+		if cc.Punch && stt.victimRuns > 1 {
+			labels = append(labels, "reclamation-on")
 		}
 		if stt.removeNext > 0 {
 			labels = append(labels, "failed-removal-then-removal-of-the-child")
@@ -818,6 +843,13 @@ func genC08Case(t *rapid.T, all bool) C08Case {
 		cc.Sample = rapid.SliceOfN(rapid.IntRange(0, 200), 2, 4).Draw(t, "sample")
 	}
 	cc.Then = rapid.SampledFrom([]string{"", "", "close", "close", "touchmeta", "touchclose"}).Draw(t, "then")
+	switch cc.Op.K {
+	case "write", "snap", "revert", "open", "close", "remove":
+		// a third of these cases run with space reclamation on in the victim and in the
+		// reopening inspector (the pre-state was built with it off, so blocks that were
+		// overwritten are still held twice and the preload of each open punches them)
+		cc.Punch = rapid.IntRange(0, 2).Draw(t, "punch") == 0
+	}
 	if cc.Op.K == "remove" && rapid.Bool().Draw(t, "removenext") {
 		cc.Then = "removenext"
 	}
